@@ -9,11 +9,13 @@
 package p13
 
 import (
+	"bytes"
 	"encoding/hex"
 	"errors"
 	"fmt"
 	"strconv"
 	"strings"
+	"sync"
 	"time"
 
 	"github.com/btcsuite/btcd/blockchain"
@@ -236,13 +238,84 @@ func b01(b bool) string {
 
 // ---------------------------------------------------------------- exec (real code)
 
-func (P) Exec(line string) string {
+func (p P) Exec(line string) string {
 	f := strings.Fields(line)
 	if len(f) < 2 || f[0] != "C13" {
 		return "bad-op"
 	}
-	a := f[2:]
-	switch f[1] {
+	if f[1] == "par" {
+		return execPar(f[2])
+	}
+	return exec1(f[1], f[2:])
+}
+
+// execPar runs every sub-line (tokens joined by "^", sub-lines by "~") in its
+// own goroutine, all started together, each repeated; an instance whose
+// repetitions disagree reports "unstable".
+func execPar(body string) string {
+	subs := strings.Split(body, "~")
+	outs := make([]string, len(subs))
+	var wg sync.WaitGroup
+	start := make(chan struct{})
+	for i, sub := range subs {
+		wg.Add(1)
+		go func(i int, sub string) {
+			defer wg.Done()
+			defer func() {
+				if r := recover(); r != nil {
+					outs[i] = "panic"
+				}
+			}()
+			t := strings.Split(sub, "^")
+			<-start
+			first := ""
+			for rep := 0; rep < 6; rep++ {
+				o := exec1(t[0], t[1:])
+				if rep == 0 {
+					first = o
+				} else if o != first {
+					first = "unstable"
+					break
+				}
+			}
+			outs[i] = first
+		}(i, sub)
+	}
+	close(start)
+	wg.Wait()
+	return strings.Join(outs, "~")
+}
+
+// blockFromBytes round-trips the block through its wire form so that the
+// wrapped transactions hash their cached raw bytes (the production path);
+// pre >= 0 wraps that transaction lazily first (Block.Tx / Block.TxHash).
+func blockFromBytes(ms []*wire.MsgTx, pre int) (*btcutil.Block, bool) {
+	for _, m := range ms {
+		if len(m.TxIn) == 0 {
+			return nil, false
+		}
+	}
+	mb := &wire.MsgBlock{Transactions: ms}
+	var buf bytes.Buffer
+	if err := mb.Serialize(&buf); err != nil {
+		return nil, false
+	}
+	blk, err := btcutil.NewBlockFromBytes(buf.Bytes())
+	if err != nil {
+		return nil, false
+	}
+	if pre >= 0 && pre < len(ms) {
+		if pre%2 == 0 {
+			blk.Tx(pre)
+		} else {
+			blk.TxHash(pre)
+		}
+	}
+	return blk, true
+}
+
+func exec1(op string, a []string) string {
+	switch op {
 	case "merkle":
 		txs := utilTxs(parseTxs(a[1]))
 		w := a[0] == "1"
@@ -266,6 +339,86 @@ func (P) Exec(line string) string {
 		txs := utilTxs(parseTxs(a[1]))
 		roll := blockchain.CalcMerkleRoot(txs, a[0] == "1")
 		return hex.EncodeToString(roll[:])
+	case "merkleb":
+		// same observation as "merkle", through a block decoded from bytes
+		w := a[0] == "1"
+		blk, ok := blockFromBytes(parseTxs(a[2]), int(atoi(a[1])))
+		if !ok {
+			return "undecodable"
+		}
+		roll := blockchain.CalcMerkleRoot(blk.Transactions(), w)
+		store := blockchain.BuildMerkleTreeStore(blk.Transactions(), w)
+		last := store[len(store)-1]
+		return "roll=" + hex.EncodeToString(roll[:]) + " store=" + hex.EncodeToString(last[:]) +
+			" weight=" + strconv.FormatInt(blockchain.GetBlockWeight(blk), 10)
+	case "mvalues":
+		// results are values: later calls and writes into returned stores
+		// must not change what the first calls returned
+		txs := utilTxs(parseTxs(a[0]))
+		r1 := blockchain.CalcMerkleRoot(txs, false)
+		w1 := blockchain.CalcMerkleRoot(txs, true)
+		s1 := blockchain.BuildMerkleTreeStore(txs, true)
+		s0 := blockchain.BuildMerkleTreeStore(txs, false)
+		keep1, keep0 := *s1[len(s1)-1], *s0[len(s0)-1]
+		// scribble over every node the store allocated itself (interior
+		// nodes and the zero coinbase leaf); leaves alias the tx hash cache
+		for i := len(txs); i < len(s0); i++ {
+			if s0[i] != nil {
+				s0[i][0] ^= 0xff
+			}
+			if s1[i] != nil {
+				s1[i][31] ^= 0xff
+			}
+		}
+		if len(txs) > 0 {
+			s1[0][5] ^= 0xff
+		}
+		r2 := blockchain.CalcMerkleRoot(txs, false)
+		w2 := blockchain.CalcMerkleRoot(txs, true)
+		t1 := blockchain.BuildMerkleTreeStore(txs, true)
+		t0 := blockchain.BuildMerkleTreeStore(txs, false)
+		again := r1 == r2 && w1 == w2 && *t1[len(t1)-1] == keep1 && *t0[len(t0)-1] == keep0 &&
+			keep0 == r1 && keep1 == w1
+		for i, tx := range txs {
+			if *tx.Hash() != tx.MsgTx().TxHash() || *tx.WitnessHash() != tx.MsgTx().WitnessHash() {
+				again = false
+			}
+			_ = i
+		}
+		return "r=" + hex.EncodeToString(r1[:]) + " w=" + hex.EncodeToString(w1[:]) + " again=" + b01(again)
+	case "hmb":
+		var l, r chainhash.Hash
+		copy(l[:], unhx(a[0]))
+		copy(r[:], unhx(a[1]))
+		h := blockchain.HashMerkleBranches(&l, &r)
+		return hex.EncodeToString(h[:])
+	case "iscb":
+		m := parseTx(a[0])
+		return b01(blockchain.IsCoinBaseTx(m)) + b01(blockchain.IsCoinBase(btcutil.NewTx(m)))
+	case "tok":
+		s := unhx(a[0])
+		t := txscript.MakeScriptTokenizer(0, s)
+		var parts []string
+		for t.Next() {
+			parts = append(parts, fmt.Sprintf("%02x:%s", t.Opcode(), hx(t.Data())))
+		}
+		end := "done"
+		if t.Err() != nil {
+			end = "err"
+		}
+		if len(parts) == 0 {
+			parts = []string{"-"}
+		}
+		return fmt.Sprintf("%s %s@%d", strings.Join(parts, ","), end, t.ByteIndex())
+	case "script":
+		s := unhx(a[0])
+		wp := "none"
+		if v, prog, err := txscript.ExtractWitnessProgramInfo(s); err == nil {
+			wp = fmt.Sprintf("%d:%s", v, hx(prog))
+		}
+		return fmt.Sprintf("po=%s sh=%s iswp=%s wp=%s wpkh=%s wsh=%s tr=%s",
+			b01(txscript.IsPushOnlyScript(s)), b01(txscript.IsPayToScriptHash(s)), b01(txscript.IsWitnessProgram(s)), wp,
+			b01(txscript.IsPayToWitnessPubKeyHash(s)), b01(txscript.IsPayToWitnessScriptHash(s)), b01(txscript.IsPayToTaproot(s)))
 	case "npot":
 		return strconv.Itoa(blockchain.VerifC13NextPowerOfTwo(int(atoi(a[0]))))
 	case "commit":
@@ -274,8 +427,15 @@ func (P) Exec(line string) string {
 			return "none"
 		}
 		return hex.EncodeToString(c)
-	case "vwc":
+	case "vwc", "vwcb":
 		blk := btcutil.NewBlock(&wire.MsgBlock{Transactions: parseTxs(a[0])})
+		if op == "vwcb" {
+			b2, ok := blockFromBytes(parseTxs(a[0]), -1)
+			if !ok {
+				return "undecodable"
+			}
+			blk = b2
+		}
 		err := blockchain.ValidateWitnessCommitment(blk)
 		if err == nil {
 			return "ok"
@@ -303,6 +463,16 @@ func (P) Exec(line string) string {
 		var full, stripped lenWriter
 		m.Serialize(&full)
 		m.SerializeNoWitness(&stripped)
+		if len(m.TxIn) > 0 {
+			// secondary path: the same transaction decoded from its bytes
+			var buf bytes.Buffer
+			m.Serialize(&buf)
+			if t2, err := btcutil.NewTxFromBytes(buf.Bytes()); err == nil {
+				if blockchain.GetTransactionWeight(t2) != w || m.SerializeSize() != full.n || m.SerializeSizeStripped() != stripped.n {
+					return "api-mismatch"
+				}
+			}
+		}
 		return fmt.Sprintf("w=%d base=%d total=%d", w, stripped.n, full.n)
 	case "blkw":
 		blk := btcutil.NewBlock(&wire.MsgBlock{Transactions: parseTxs(a[0])})
@@ -416,6 +586,10 @@ func (P) Exec(line string) string {
 			}
 		}
 		sl, err := blockchain.VerifC13CalcSequenceLock(times, btcutil.NewTx(m), view, mempool)
+		sl2, err2 := blockchain.VerifC13CalcSequenceLockExported(times, btcutil.NewTx(m), view, mempool)
+		if (err == nil) != (err2 == nil) || (err == nil && *sl != *sl2) {
+			return "api-mismatch"
+		}
 		if err != nil {
 			if c, ok := ruleCode(err); ok && c == blockchain.ErrMissingTxOut {
 				return "err:missing"
